@@ -79,6 +79,9 @@ func c15Gen(r *rand.Rand, tier string) []spec.Case {
 		default:
 			steps = []string{"reattach", "reattach2", "reattach2", "kill:2", "get:0,a", "cancel"}
 		}
+		// after the server has stopped, reattaching must fail: through the very config object that was used
+		// before, and through a second-generation config taken from a reattached client
+		steps = append(steps, "reattach", "reattach2")
 		c := spec.C15Case{Proto: proto, Mode: "testmode", Steps: steps, ConcOps: 30}
 		out = append(out, spec.Case{Kind: "solo:testmode", P: spec.MustJSON(c)})
 	}
@@ -155,7 +158,7 @@ func c15Judge(c spec.Case, evs []spec.Event, d *Death) CaseResult {
 			} else {
 				if s.OK {
 					viol("reattached-to-dead", "reattach succeeded although nothing is listening")
-				} else if !s.NotFound && p.Mode == "proc" {
+				} else if !s.NotFound {
 					viol("wrong-error-after-death", "reattach with nothing listening must fail with the process-not-found error, got: "+s.Err)
 				} else {
 					res.Counters["reattach_after_death"]++
